@@ -156,7 +156,7 @@ fn kind_json(kind: &str) -> Option<&'static str> {
     })
 }
 
-fn document_case(class: &str, pos: &str, k: usize) -> Option<Lr> {
+fn document_case(class: &str, pos: &str, sub: &str, k: usize) -> Option<Lr> {
     if let Some(m) = marker_of(class) {
         return place_upload_value(pos, &jstr(&m), &jstr(&m));
     }
@@ -198,8 +198,8 @@ fn document_case(class: &str, pos: &str, k: usize) -> Option<Lr> {
             for i in 0..k { s += &format!(" fragment F{i} on Query {{ ...F{} }}", (i + 1) % k); }
             lr(s)
         }
-        ("big_number", p) => {
-            let (ty, lit) = p.split_once(':')?;
+        ("big_number", ty) => {
+            let lit = sub;
             let (gty, field) = type_of(ty)?;
             let n = match lit {
                 "int_digits" => rep("9", k.max(1)), "neg_digits" => format!("-{}", rep("9", k.max(1))),
@@ -258,8 +258,8 @@ fn document_case(class: &str, pos: &str, k: usize) -> Option<Lr> {
             "json_var_items" => lrv("query($v: [Int!]) { list(a: $v) }", format!("{{\"v\":[{}1]}}", rep("1,", k))),
             _ => return None,
         },
-        ("wrong_kind", p) => {
-            let (ty, kind) = p.split_once(':')?;
+        ("wrong_kind", ty) => {
+            let kind = sub;
             let (gty, field) = type_of(ty)?;
             let v = kind_json(kind)?;
             if ty == "upload" { lrv("mutation($v: Upload!) { upload(file: $v) }", format!("{{\"v\":{v}}}")) }
@@ -353,10 +353,10 @@ fn ws_of(proto: &'static str, body: &[u8]) -> Vec<Vec<u8>> {
 }
 
 fn valid_lr(which: usize) -> Lr {
-    document_case("benign", ["query", "variables", "upload", "subscription"][which % 4], 0).unwrap()
+    document_case("benign", ["query", "variables", "upload", "subscription"][which % 4], "", 0).unwrap()
 }
 
-fn transport_case(class: &str, pos: &str, k: usize, transport: &str) -> Payload {
+fn transport_case(class: &str, pos: &str, sub: &str, k: usize, transport: &str) -> Payload {
     let base = valid_lr(if transport == "multipart" { 2 } else { 1 });
     match (class, transport) {
         ("truncate", "json") => { let b = request_body(&base); Payload::Body(b[..b.len() * k / 20].to_vec()) }
@@ -474,7 +474,7 @@ fn transport_case(class: &str, pos: &str, k: usize, transport: &str) -> Payload 
             Payload::Multipart(ct, body)
         }
         ("ws_frames", "ws") => {
-            let (proto, what) = match pos.split_once(':') { Some(("old", w)) => ("graphql-ws", w), Some(("new", w)) => ("graphql-transport-ws", w), _ => return Payload::NotApplicable };
+            let (proto, what) = match pos { "old" => ("graphql-ws", sub), "new" => ("graphql-transport-ws", sub), _ => return Payload::NotApplicable };
             let init = b"{\"type\":\"connection_init\"}".to_vec();
             let start = if proto == "graphql-ws" { "start" } else { "subscribe" };
             let good = format!("{{\"type\":\"{start}\",\"id\":\"1\",\"payload\":{{\"query\":\"{{ int }}\"}}}}").into_bytes();
@@ -528,7 +528,7 @@ fn run_ws(s: &S, proto: &str, frames: Vec<Vec<u8>>) -> (&'static str, String) {
     let mut ws = Box::pin(WebSocket::new(s.clone(), Frames(frames.into()), p));
     let waker = futures_task::noop_waker();
     let mut cx = TaskCx::from_waker(&waker);
-    let (mut texts, mut errs, mut detail) = (0usize, 0usize, String::new());
+    let (mut texts, mut errs, mut results, mut detail) = (0usize, 0usize, 0usize, String::new());
     for _ in 0..100_000 {
         match ws.as_mut().poll_next(&mut cx) {
             Poll::Pending => break,
@@ -541,11 +541,12 @@ fn run_ws(s: &S, proto: &str, frames: Vec<Vec<u8>>) -> (&'static str, String) {
                     if ty == "connection_error" { return ("close", "connection_error".into()); }
                     let has_err = ty == "error" || v.pointer("/payload/errors").map(|e| e.as_array().map(|a| !a.is_empty()).unwrap_or(false)).unwrap_or(false);
                     if has_err { errs += 1; if detail.is_empty() { detail = t.chars().take(120).collect(); } }
+                    else if ty == "next" || ty == "data" { results += 1; }
                 }
             }
         }
     }
-    if errs > 0 { ("errors", detail) } else { ("open", format!("{texts} messages")) }
+    if errs > 0 { ("errors", detail) } else if results > 0 { ("data", format!("{texts} messages")) } else { ("open", format!("{texts} messages")) }
 }
 
 fn run_payload(s: &S, transport: &str, pos: &str, p: Payload) -> (&'static str, String) {
@@ -593,6 +594,7 @@ fn hex(b: &[u8]) -> Vec<u8> {
 fn materialise(case: &J) -> (String, String, Payload) {
     let class = case["class"].as_str().unwrap_or("");
     let pos = case["pos"].as_str().unwrap_or("");
+    let sub = case["sub"].as_str().unwrap_or("");
     let k = case["k"].as_u64().unwrap_or(0) as usize;
     let transport = case["transport"].as_str().unwrap_or("").to_string();
     let p = if class == "mutation" {
@@ -608,12 +610,56 @@ fn materialise(case: &J) -> (String, String, Payload) {
         }
     } else if class == "content_type" {
         Payload::Body(request_body(&valid_lr(1)))
-    } else if let Some(l) = document_case(class, pos, k) {
+    } else if let Some(l) = document_case(class, pos, sub, k) {
         Payload::Lr(l)
     } else {
-        transport_case(class, pos, k, &transport)
+        transport_case(class, pos, sub, k, &transport)
     };
     (transport, if class == "content_type" { format!("ct:{pos}") } else { pos.to_string() }, p)
+}
+
+/// Syntactic features of the bytes a case sends (the triggers of the named deviations are stated over them).
+fn features(case: &J) -> J {
+    let (_t, _p, payload) = materialise(case);
+    let mut bytes: Vec<u8> = match payload {
+        Payload::Lr(l) => { let mut b = request_body(&l); if let Some(m) = &l.map { b.extend_from_slice(m.as_bytes()); } b }
+        Payload::Body(b) => b,
+        Payload::Get(q) => percent_encoding::percent_decode_str(&q).collect(),
+        Payload::Multipart(_, b) => b,
+        Payload::Ws(_, frames) => frames.concat(),
+        Payload::NotApplicable => Vec::new(),
+    };
+    if case["transport"] == "get" && case["class"] == "mutation" { bytes = percent_encoding::percent_decode(&bytes).collect(); }
+    let text = String::from_utf8_lossy(&bytes).to_string();
+    let (mut depth, mut max_depth) = (0i64, 0i64);
+    for b in &bytes {
+        match b { b'[' | b'{' => { depth += 1; max_depth = max_depth.max(depth); } b']' | b'}' => depth = (depth - 1).max(0), _ => {} }
+    }
+    // `$name : [ [ X` with X not a type of the schema
+    const KNOWN: [&str; 9] = ["Int", "Float", "String", "Boolean", "ID", "Color", "Inp", "JSON", "Upload"];
+    let cs: Vec<char> = text.chars().collect();
+    let mut undef = false;
+    let mut i = 0;
+    while i < cs.len() {
+        if cs[i] == '$' {
+            let mut j = i + 1;
+            while j < cs.len() && (cs[j].is_alphanumeric() || cs[j] == '_') { j += 1; }
+            while j < cs.len() && cs[j].is_whitespace() { j += 1; }
+            if j < cs.len() && cs[j] == ':' {
+                j += 1;
+                let mut lists = 0;
+                while j < cs.len() && (cs[j].is_whitespace() || cs[j] == '[') { if cs[j] == '[' { lists += 1; } j += 1; }
+                let st = j;
+                while j < cs.len() && (cs[j].is_alphanumeric() || cs[j] == '_') { j += 1; }
+                let name: String = cs[st..j].iter().collect();
+                if lists > 0 && !name.is_empty() && !KNOWN.contains(&name.as_str()) { undef = true; }
+            }
+            i = j.max(i + 1);
+        } else { i += 1; }
+    }
+    let lower = text.to_ascii_lowercase();
+    json!({"marker": text.contains(MARK), "undef": undef, "depth": max_depth, "frags": text.matches("fragment ").count(),
+           "mpmp": lower.contains("content-type: multipart/") })
 }
 
 fn run_case(s: &S, case: &J) -> J {
@@ -675,7 +721,7 @@ fn mutation_cases(seed: u64, n: usize, first_id: u64) -> Vec<J> {
             _ => ws_of("graphql-transport-ws", &request_body(&l))[1].clone(),
         };
         let m = mutate(&mut rng, &src);
-        out.push(json!({"id": first_id + i as u64, "class": "mutation", "pos": "bytes", "k": i, "transport": transport, "bytes": tohex(&m)}));
+        out.push(json!({"id": first_id + i as u64, "class": "mutation", "pos": "bytes", "sub": "", "k": i, "transport": transport, "bytes": tohex(&m)}));
     }
     out
 }
@@ -700,6 +746,7 @@ fn parent(a: &[String]) {
     let mut cases = read_ndjson(&a[2]);
     let max_id = cases.iter().map(|c| c["id"].as_u64().unwrap_or(0)).max().unwrap_or(0);
     cases.extend(mutation_cases(seed, nmut, max_id + 1));
+    for c in cases.iter_mut() { let f = features(c); c["feat"] = f; }
     let all = format!("{}.all", a[2]);
     { let mut w = NdWriter::create(&all); for c in &cases { w.write(c); } w.finish(); }
     let exe = std::env::current_exe().unwrap();
@@ -724,7 +771,7 @@ fn parent(a: &[String]) {
                     else if let Some(o) = l.strip_prefix("O ") {
                         let mut v: J = serde_json::from_str(o).unwrap_or_else(|_| tool_error("bad child line"));
                         let c = &cases[current.unwrap_or(next)];
-                        for key in ["class", "pos", "k", "transport"] { v[key] = c[key].clone(); }
+                        for key in ["class", "pos", "sub", "k", "transport", "feat"] { v[key] = c[key].clone(); }
                         w.write(&v);
                         next = current.unwrap_or(next) + 1;
                         current = None;
@@ -736,7 +783,7 @@ fn parent(a: &[String]) {
                     let i = current.unwrap_or_else(|| tool_error("child produced nothing for 60 s"));
                     let c = &cases[i];
                     w.write(&json!({"id": c["id"], "outcome": "timeout", "detail": format!("no answer within {} ms", budget.as_millis()), "ms": budget.as_millis() as u64,
-                                    "class": c["class"], "pos": c["pos"], "k": c["k"], "transport": c["transport"]}));
+                                    "class": c["class"], "pos": c["pos"], "sub": c["sub"], "k": c["k"], "transport": c["transport"], "feat": c["feat"]}));
                     next = i + 1;
                     break;
                 }
@@ -748,7 +795,7 @@ fn parent(a: &[String]) {
                         let detail = match st.signal() { Some(6) => "SIGABRT (stack overflow / abort)".to_string(), Some(11) => "SIGSEGV".to_string(),
                                                          Some(s) => format!("signal {s}"), None => format!("exit code {:?}", st.code()) };
                         w.write(&json!({"id": c["id"], "outcome": "abort", "detail": detail, "ms": started.elapsed().as_millis() as u64,
-                                        "class": c["class"], "pos": c["pos"], "k": c["k"], "transport": c["transport"]}));
+                                        "class": c["class"], "pos": c["pos"], "sub": c["sub"], "k": c["k"], "transport": c["transport"], "feat": c["feat"]}));
                         next = i + 1;
                     } else if next < cases.len() && !st.success() {
                         tool_error(&format!("child died between cases: {st:?}"));
